@@ -6,6 +6,7 @@ RULE = ("tag.new: every class x numbers within +-40 of 0,30,31,127,128,16383,163
         "tag.take/takeopt: every first octet x following octets from a boundary alphabet up to 5 octets, complete and truncated; "
         "tag.takeif: expected tags of 1-4 octets against equal / different / prefix-sharing / non-minimal / truncated identifiers. "
         "non-trivial = a tag was produced or matched.")
+CROSS = {'C09': 2500, 'C02': 1500, 'C07': 1500}   # cross streams: samples of neighbouring properties' request streams (outcomes, model <-> implementation)
 EXHAUSTIVE = {"quick": False, "thorough": False}
 EXHAUSTIVE_NOTE = {"quick": "tag.take exhaustive for identifier strings of <= 2 octets",
                    "thorough": "tag.new exhaustive for all 4 x 2^21 (class, number); tag.take exhaustive for <= 3 octets"}
